@@ -97,6 +97,10 @@ Fixpoint sync (w : ws) {struct w} : sres :=
   | Multi l => multi_sync_loop (fun w' => sync w') l [] []
   end.
 
+(* the code before / after the fix, by name *)
+Definition write_orig : ws -> bytes -> wres := write Orig.
+Definition write_fixed : ws -> bytes -> wres := write Fixed.
+
 (* Go's static typing of the objects: a WriteSyncer-typed field holds something with a Sync method *)
 Definition is_syncer (w : ws) : bool :=
   match w with Leaf _ hs _ _ _ => hs | Discard => false | _ => true end.
@@ -255,6 +259,8 @@ Definition trim_space (p oracle : bytes) : bytes := if all_ascii p then ascii_tr
 Definition stdlog_write (v : version) (en : bool) (p oracle : bytes) : Z * Z * list bytes :=
   let t := trim_space p oracle in
   (match v with Orig => zlen t | Fixed => zlen p end, 0, if en then [t] else []).
+
+Definition stdlog_write_orig : bool -> bytes -> bytes -> Z * Z * list bytes := stdlog_write Orig.
 
 (* TestingWriter.Write:  n = len(p); p = bytes.TrimRight(p, "\n"); w.t.Logf("%s", p);
    if w.markFailed { w.t.Fail() }; return n, nil *)
